@@ -94,7 +94,13 @@ include!(concat!(env!("CARGO_MANIFEST_DIR"), "/src/verif_frag_covfrag.rs"));
 fn count_case(seq: [u8; 7], distinct_want: usize) {
     let rec = SeqRecShim { seq, qual: kani::any() };
     let rc: bool = kani::any();
-    let mut cov = CovShim::<u64> { k: 5, rc, kmer_dict: HashMap { v: Vec::with_capacity(4) } };
+    // the dictionary already holds one k-mer (possibly one of this read's) from earlier records
+    let pre_key: u64 = kani::any();
+    let pre_cnt: u32 = kani::any();
+    kani::assume(pre_cnt >= 1 && pre_cnt <= 1000);
+    let mut v0 = Vec::with_capacity(5);
+    v0.push((pre_key, pre_cnt));
+    let mut cov = CovShim::<u64> { k: 5, rc, kmer_dict: HashMap { v: v0 } };
 
     count_record(&mut cov, &rec);
 
@@ -105,13 +111,16 @@ fn count_case(seq: [u8; 7], distinct_want: usize) {
     let w2 = it.get_next_kmer().unwrap().0;
     assert!(it.get_next_kmer().is_none());
     let probe: u64 = kani::any();
-    let want = (probe == w0) as u32 + (probe == w1) as u32 + (probe == w2) as u32;
+    let want = (probe == w0) as u32 + (probe == w1) as u32 + (probe == w2) as u32 + if probe == pre_key { pre_cnt } else { 0 };
     match cov.kmer_dict.count_of(probe) {
         None => assert!(want == 0),
         Some(c) => assert!(*c == want && want > 0),
     }
     let distinct = 1 + (w1 != w0) as usize + (w2 != w0 && w2 != w1) as usize;
-    assert!(cov.kmer_dict.v.len() == distinct);
+    let pre_is_new = pre_key != w0 && pre_key != w1 && pre_key != w2;
+    assert!(cov.kmer_dict.v.len() == distinct + pre_is_new as usize);
+    kani::cover!(pre_key == w0);
+    kani::cover!(pre_is_new);
     // single-stranded, the three reads have 1, 3 and 2 distinct split k-mers (guards the choice of reads)
     assert!(rc || distinct == distinct_want);
     kani::cover!(rc);
